@@ -53,6 +53,12 @@ impl<'a> SendLastStateProofProcess<'a> {
 
         let last_header: VerifiableHeader = self.message.last_header().to_entity().into();
 
+        // The total difficulty of the last header is calculated by many following steps.
+        if last_header.checked_total_difficulty().is_none() {
+            let errmsg = "total difficulty of the last header is overflow";
+            return StatusCode::InvalidTotalDifficulty.with_context(errmsg);
+        }
+
         // Update the last state if the response contains a new one.
         if !original_request.is_same_as(&last_header) {
             if self.message.proof().is_empty() {
@@ -696,6 +702,19 @@ pub(crate) fn check_if_response_is_matched(
     if headers.is_empty() {
         let errmsg = "headers should NOT be empty";
         return Err(StatusCode::MalformedProtocolMessage.with_context(errmsg));
+    }
+
+    // The total difficulties of headers are calculated by many following steps.
+    if let Some(h) = headers
+        .iter()
+        .find(|h| h.checked_total_difficulty().is_none())
+    {
+        let errmsg = format!(
+            "total difficulty is overflow for block#{}, hash: {:#x}",
+            h.header().number(),
+            h.header().hash()
+        );
+        return Err(StatusCode::InvalidTotalDifficulty.with_context(errmsg));
     }
 
     // Headers should be sorted.
